@@ -20,6 +20,8 @@ INSTS = {
     "C08": MERGE, "C09": CONCAT, "C10": COMBINE, "C11": FLATTEN, "C12": SHARE,
     "C14": RELAYS + TAKES + CONCAT + FLATTEN + FROMITER,
     "C15": FROMITER,
+    "C18": MERGE + COMBINE,
+    "C19": TAKES,
     "C20": ALL,
 }
 RANDOM = {"quick": (300, 40), "thorough": (20000, 60)}
